@@ -330,6 +330,16 @@ def check_inline(case, res: Res, md) -> None:
     sep0 = case.get("sep0", " ")
     ref_doc = f"{bang}[{text}][r]\n\n[r]:{sep0}{dest}{sep if title else ''}{title}\n"
     inl_doc = f"{bang}[{text}]({dest}{sep if title else ''}{title})\n"
+    # a title line that is a setext underline is outside the domain unless another enabled rule claims the line first in both
+    # grammars (the reference rule runs before lheading; '===' - and '-' runs when list/hr are switched off - differ by design)
+    active = md.get_active_rules()["block"]
+    for ln in title.split("\n")[1:]:
+        if re.fullmatch(r" {0,3}(=+|-+)[ \t]*", ln):
+            body = ln.strip()
+            claimed = (body == "-" and "list" in active) or (set(body) == {"-"} and len(body) >= 3 and "hr" in active)
+            if not claimed:
+                res.cls.append("inline:outside-domain(setext underline inside the title)")
+                return
     t_ref = md.parse(ref_doc)
     t_inl = md.parse(inl_doc)
 
